@@ -300,6 +300,12 @@ def reserved_domains(full=False):
             if L > len(last): sufs.append(head + last + b'xyzwvutsrq'[:L - len(last)])
             elif L < len(last): sufs.append(head + last[:L])
             sufs.append(head + b'x' * max(L - len(last), 0) + last[-L:])            # same, on the left
+    # reserved names glued to further characters by a hyphen (a legal label character that is neither a letter nor a digit)
+    for r in RESERVED:
+        last = r.split(b'.')[-1]; head = r[:len(r) - len(last)]
+        sufs += [head + last + b'-1', head + last + b'-x', head + b'x-' + last, head + last + b'--a', head + last + b'-' + last, head + last[:2] + b'-' + last[2:]]
+    for t in (b'com', b'net', b'org'):
+        sufs += [b'example-x.' + t, b'x-example.' + t, b'example.' + t + b'-x', b'example.x-' + t]
     for t in (b'com', b'net', b'org'):
         sufs += [b'example.' + t + b'x', b'example.' + t[:2], b'examplex.' + t, b'exampl.' + t, b'xexampl.' + t, b'example.x' + t[1:]]
     sufs = list(dict.fromkeys(sufs))
